@@ -299,6 +299,8 @@ fn expected_counts(w: &Workload) -> HashMap<(Side, u16), usize> {
 pub struct RigExtra {
     /// replace every genuine SACK by a harness-built truthful one (see net::sacksynth)
     pub sack_form: Option<crate::net::sacksynth::SackForm>,
+    /// fabricated setup chunks behind `Action::Custom(setupforge::CUSTOM_*)` rules (see net::setupforge)
+    pub forgery: Option<crate::net::setupforge::SetupForgery>,
 }
 
 pub async fn run_case(w: &Workload, n: &NetSpec, lim: &Limits) -> anyhow::Result<RunResult> {
@@ -351,6 +353,9 @@ pub async fn run_case_with(w: &Workload, n: &NetSpec, lim: &Limits, extra: &RigE
         }
     }
     let mut pair = Pair::build(spec).await?;
+    if let Some(fg) = extra.forgery {
+        pair.sctp_layer.lock().custom = Some(Arc::new(move |k: u8, b: &Bytes| fg.apply(k, b)));
+    }
     let synth = extra.sack_form.map(|f| Arc::new(Mutex::new(crate::net::sacksynth::SackSynth::new(f))));
     if let Some(sy) = &synth {
         let mut g = pair.sctp_layer.lock();
